@@ -12,6 +12,11 @@ import TrionModel.Lemmas.SimpNF
 namespace Trion.Simp
 open Trion
 
+/-- the evaluation of `a` over `lk`, if it fails, leaves a tree whose evaluation fails in exactly the same way and leaves
+the same tree, over every lookup -/
+def ErrAgain (lk : Bytes → Lookup) (isReg : Bytes → Bool) (a : Arg) : Prop :=
+  ∀ e t', evaluateE lk isReg a = .err e t' → ∀ lk₂ : Bytes → Lookup, evaluateE lk₂ isReg t' = .err e t'
+
 theorem evaluateE_error_again_closed (lk : Bytes → Lookup) (isReg : Bytes → Bool) : ∀ a, arith (unknown lk isReg) a = true →
     ∀ e t', evaluateE lk isReg a = .err e t' → ∀ lk₂ : Bytes → Lookup, evaluateE lk₂ isReg t' = .err e t' := by
   intro a
@@ -71,5 +76,8 @@ theorem evaluateE_error_again_closed (lk : Bytes → Lookup) (isReg : Bytes → 
   | addr v _ => intro h; simp [arith] at h
   | seq v => intro h; simp [arith] at h
   | func n v => intro h; simp [arith] at h
+
+theorem errAgain_closed {lk : Bytes → Lookup} {isReg : Bytes → Bool} {a : Arg} (h : arith (unknown lk isReg) a = true) :
+    ErrAgain lk isReg a := evaluateE_error_again_closed lk isReg a h
 
 end Trion.Simp
